@@ -4,6 +4,7 @@
 package lookbehind
 
 import (
+	"strconv"
 	"strings"
 	"unicode"
 )
@@ -136,4 +137,23 @@ func SteppedPastTest(s string, i int) bool {
 		}
 	}
 	return false
+}
+
+// CompactsArgument: positive control for the argument-is-read-only rule (C10/R9): the non-zero values are kept by
+// appending onto a zero-length reslice of the argument, which overwrites the caller's slice.
+func CompactsArgument(vals []float64) int {
+	kept := vals[:0]
+	for _, v := range vals {
+		if v != 0 {
+			kept = append(kept, v)
+		}
+	}
+	return len(kept)
+}
+
+var scratch [32]byte
+
+// ScratchSpace: positive control for the no-package-level-scratch rule (C10/R9, C15/R11).
+func ScratchSpace(n int64) string {
+	return string(strconv.AppendInt(scratch[:0], n, 10))
 }
